@@ -86,4 +86,20 @@ def check(repo, reader):
                 bad = stores_ok(p, U(r), lambda e: _Simp(Asg(sc, fx)).visit(e))
                 if bad:
                     probs["get-memo"].append((p.node, f"{where}: {bad}; the computed size must be memoised under (table, {idx}) only"))
+    # (4) the stored strokes are applied before a given size is stored: applying them later (they are applied lazily, on
+    # the first border access, also during save) drops the entries of the rows/columns they touch from this same memo
+    from .symexec import body_paths, none_test
+    late = []
+    for conds, steps, _end in body_paths([b for b in f.body if not (isinstance(b, ast.Expr) and isinstance(b.value, ast.Constant))]):
+        # the first test on the parameter decides (later ones may test a local that reuses its name)
+        firstc = next(((t, o) for t, o in conds if none_test(t, val) is not None), None)
+        given = firstc is not None and ((none_test(firstc[0], val) is True and firstc[1] is False) or (none_test(firstc[0], val) is False and firstc[1] is True))
+        store_at = next((i for i, st in enumerate(steps) if isinstance(st, ast.Assign) and len(st.targets) == 1 and U(st.targets[0]).replace(" ", "") == memo.replace(" ", "")), None)
+        if given and store_at is not None:
+            first = any(isinstance(st, ast.Expr) and isinstance(st.value, ast.Call) and U(st.value.func) == "self.extract_strokes" and [U(a) for a in st.value.args] == [tid]
+                        for st in steps[:store_at])
+            if not first:
+                late.append((steps[store_at], "a size given before the table's borders were first read is stored without applying the stored strokes first: the lazy extraction "
+                             f"(set_cell_border pops self.{sizes}[{tid}][...]) later removes it and the saved file keeps the old size"))
+    probs["set"] += late
     return f, n, probs
